@@ -11,10 +11,24 @@ package benchunit
 
 // tidyUnitUncached is a pure function of its argument (it only reads the
 // string); its two results are written tidyUnitUncached_0/_1 in specifications.
+// Verified for safety and termination: every edit lies inside the unit (tokens do
+// not overlap and are replaced from the last to the first, so earlier offsets stay
+// valid), no slice expression can panic and both loops terminate.  What the edits
+// amount to (ns -> sec, MB -> B in the numerator) is covered by the bounded check.
 //@ func tidyUnitUncached(unit string) (tidied string, factor float64)
 //@   props C04
 //@   opt functional
-//@   trusted
+//@   opt allocates
+//@   loop 1:
+//@     invariant p != nil && fresh(p) && unchanged() && unit == old(unit) && p.rpos >= 0 && p.rpos + len(p.rest) <= len(unit) && fresh(edits)
+//@     invariant forall j int :: 0 <= j < len(edits) ==> 0 <= edits[j].pos && 0 <= edits[j].len && edits[j].pos + edits[j].len <= p.rpos
+//@     invariant forall j int, k int :: {edits[j], edits[k]} 0 <= j < k < len(edits) ==> edits[j].pos + edits[j].len <= edits[k].pos
+//@     decreases len(p.rest)
+//@   loop 2:
+//@     invariant -1 <= i < len(edits) && unchanged() && fresh(edits)
+//@     invariant forall j int :: 0 <= j <= i ==> 0 <= edits[j].pos && 0 <= edits[j].len && edits[j].pos + edits[j].len <= len(unit)
+//@     invariant forall j int, k int :: {edits[j], edits[k]} 0 <= j < k < len(edits) ==> edits[j].pos + edits[j].len <= edits[k].pos
+//@     decreases i + 1
 
 // The cache maps a unit to exactly what the slow path computes for it.
 //@ pure func tidyCacheOK(c *sync.Map) bool = forall u string :: has(syncmap(c), iface(u)) ==>
